@@ -44,7 +44,11 @@ Record api_obs := {
 Record sql_in := { s_kind : N; s_vals : list cspec; s_prefix : nat }.
 Record sql_obs := {
   so_read_in : bool; so_read_out : bool;        (* every value reads back from both tables *)
+  so_read_sel : bool; so_read_upd : bool;       (* … from a table filled by INSERT..SELECT from tout, and from one filled by UPDATE *)
   so_order_in : list N; so_order_out : list N;  (* SELECT id ... ORDER BY v, id *)
+  so_order_sel : list N; so_order_upd : list N;
+  so_distinct_sel : N; so_distinct_upd : N;
+  so_json_full : bool;                          (* JSON columns: the whole documents render identically from all four tables and as CAST(literal AS JSON) *)
   so_distinct_in : N; so_distinct_out : N;      (* SELECT DISTINCT v *)
   so_groups_in : N; so_groups_out : N;          (* GROUP BY v *)
   so_join : N;                                  (* pairs (a in tin, b in tout) with a.v = b.v *)
@@ -87,8 +91,10 @@ Definition sql_model (s : sql_in) : sql_obs :=
   let vs := map expand (s_vals s) in
   let ids := map N.of_nat (seq 1 (length vs)) in
   let order := map snd (sort_rows (combine vs ids)) in
-  {| so_read_in := true; so_read_out := true;
-     so_order_in := order; so_order_out := order;
+  {| so_read_in := true; so_read_out := true; so_read_sel := true; so_read_upd := true;
+     so_order_in := order; so_order_out := order; so_order_sel := order; so_order_upd := order;
+     so_distinct_sel := distinct_count vs; so_distinct_upd := distinct_count vs;
+     so_json_full := true;
      so_distinct_in := distinct_count vs; so_distinct_out := distinct_count vs;
      so_groups_in := distinct_count vs; so_groups_out := distinct_count vs;
      so_join := equal_pairs vs;
@@ -114,7 +120,11 @@ Definition api_eqb (a b : api_obs) : bool :=
 
 Definition sql_eqb (a b : sql_obs) : bool :=
   Bool.eqb (so_read_in a) (so_read_in b) && Bool.eqb (so_read_out a) (so_read_out b)
+  && Bool.eqb (so_read_sel a) (so_read_sel b) && Bool.eqb (so_read_upd a) (so_read_upd b)
   && list_eqb N.eqb (so_order_in a) (so_order_in b) && list_eqb N.eqb (so_order_out a) (so_order_out b)
+  && list_eqb N.eqb (so_order_sel a) (so_order_sel b) && list_eqb N.eqb (so_order_upd a) (so_order_upd b)
+  && (so_distinct_sel a =? so_distinct_sel b) && (so_distinct_upd a =? so_distinct_upd b)
+  && Bool.eqb (so_json_full a) (so_json_full b)
   && (so_distinct_in a =? so_distinct_in b) && (so_distinct_out a =? so_distinct_out b)
   && (so_groups_in a =? so_groups_in b) && (so_groups_out a =? so_groups_out b)
   && (so_join a =? so_join b) && list_eqb Bool.eqb (so_unique a) (so_unique b)
@@ -152,8 +162,10 @@ Definition sql_oracle (s : sql_in) (o : sql_obs) : bool :=
   let vs := map expand (s_vals s) in
   let ids := map N.of_nat (seq 1 (length vs)) in
   let lookup id := nth (N.to_nat id - 1) vs [] in
-  so_read_in o && so_read_out o
+  so_read_in o && so_read_out o && so_read_sel o && so_read_upd o && so_json_full o
   && list_eqb N.eqb (so_order_in o) (so_order_out o)
+  && list_eqb N.eqb (so_order_in o) (so_order_sel o) && list_eqb N.eqb (so_order_in o) (so_order_upd o)
+  && (so_distinct_sel o =? distinct_count vs) && (so_distinct_upd o =? distinct_count vs)
   && sorted_rows (map (fun id => (lookup id, id)) (so_order_in o))
   && (N.of_nat (length (so_order_in o)) =? N.of_nat (length vs))
   && (so_distinct_in o =? distinct_count vs) && (so_distinct_out o =? distinct_count vs)
